@@ -61,7 +61,7 @@ def run(ck, tier, name, src, extra=()):
         timed = "to=1" in nm
         bp = 1 if (thr <= 2 and not timed) else 0
         if tier == "thorough":
-            bp = 1
+            bp = 1 if t == 0 else 0     # the thorough-only rows are the long scripts: under ThreadSanitizer they run at bound 0 (each costs minutes at bound 1)
         bp = min(bp, rbp)   # rows whose own bound is 0 (long multi-session scripts) stay at 0 here too
         if tbp >= 0:
             bp = tbp        # rows that ask for a specific bound under ThreadSanitizer
